@@ -167,8 +167,16 @@ def main(tier):
             ln = max(len(base), min(4 * nkw, ln if ln > 4 * (nkw - 1) else 4 * (nkw - 1) + 1))
             return (base + "x" * 20)[:ln]
         nfind = 0
-        for kws, cs in sorted(layouts.items()):
+        allz = ["UTC", "Asia/Tokyo", "Europe/Berlin", "Asia/Kathmandu", "America/New_York", "Europe/London", "Asia/Dubai"]
+        variants = []
+        for kws in sorted(layouts):
+            # the zone name section is padded to a word boundary: take zone lists of every total length residue
+            for v in range(4 if kws else 1):
+                variants.append((kws, v))
+        for kws, v in variants:
             keys = [keyfor(i + 1, kw) for i, kw in enumerate(kws)]
+            zl = allz[v:] + allz[:v]
+            znames = [zl[(i // (1 + v % 2)) % len(zl)] for i in range(max(1, len(keys)))]    # v odd: neighbours share a zone
             src = os.path.join(sdir, "m.tzmap")
             out = os.path.join(sdir, "m.tzmcc")
             with open(src, "w") as f:
@@ -208,7 +216,7 @@ def main(tier):
                 ex.append({"e": "Find", "key": q, "r": a.get("r") or ""})
             execs.append(ex)
             # faults on the compiled map: all truncations and word corruptions
-            if len(keys) >= 2 and (not quick or len(execs) % 6 == 0):
+            if len(keys) >= 2 and (not quick or len(execs) % 24 == 0):
                 fq = ["F " + q for q in qs[:12]]
                 for n in range(0, len(data) + 1):
                     fm.case(data[:n], "map %s truncated to %d" % (keys, n), fq)
